@@ -1,7 +1,7 @@
 (* C14 - Records, varints and spilled payloads decode exactly per the file
    format.  Property theorems only; proofs are in Proofs/. *)
-From SQ Require Import Model.Base Model.Varint Model.Record Model.Payload Spec.Encode
-     Proofs.BaseP Proofs.VarintP Proofs.RecordP Proofs.PayloadP.
+From SQ Require Import Model.Base Model.Varint Model.Record Model.Payload Model.Btree Model.Page Spec.Encode
+     Proofs.BaseP Proofs.VarintP Proofs.RecordP Proofs.PayloadP Proofs.PageP.
 
 (* every unsigned 64-bit value, hence all nine varint lengths *)
 Theorem C14_varint : forall v rest, 0 <= v < 2 ^ 64 ->
@@ -63,6 +63,49 @@ Theorem C14_overflow_chain : forall pg npages pl c,
   add_overflow pg npages pl = slice_to (pl_local pl ++ chain_content c) (pl_len pl).
 Proof. exact add_overflow_chain. Qed.
 Print Assumptions C14_overflow_chain.
+
+(* the four cell formats (fileformat2.html 1.6), from their encodings *)
+Theorem C14_table_leaf_cell : forall l rowid body u pl, 0 <= l < 2 ^ 63 -> - 2 ^ 63 <= rowid < 2 ^ 63 ->
+  parse_payload l body u (table_max_local u) = Ok pl ->
+  parse_table_leaf (put_varint l ++ put_varint (to_u64 rowid) ++ body) u = Ok (rowid, pl).
+Proof. exact table_leaf_cell. Qed.
+Print Assumptions C14_table_leaf_cell.
+
+Theorem C14_table_interior_cell : forall child key tail, 0 <= child < 2 ^ 32 -> - 2 ^ 63 <= key < 2 ^ 63 ->
+  parse_table_interior (be_enc 4 child ++ put_varint (to_u64 key) ++ tail) = Ok (child, key).
+Proof. exact table_interior_cell. Qed.
+Print Assumptions C14_table_interior_cell.
+
+Theorem C14_index_leaf_cell : forall l body u pl, 0 <= l < 2 ^ 63 ->
+  parse_payload l body u (index_max_local u) = Ok pl ->
+  parse_index_leaf (put_varint l ++ body) u = Ok pl.
+Proof. exact index_leaf_cell. Qed.
+Print Assumptions C14_index_leaf_cell.
+
+Theorem C14_index_interior_cell : forall child l body u pl, 0 <= child < 2 ^ 32 -> 0 <= l < 2 ^ 63 ->
+  parse_payload l body u (index_max_local u) = Ok pl ->
+  parse_index_interior (be_enc 4 child ++ put_varint l ++ body) u = Ok (child, pl).
+Proof. exact index_interior_cell. Qed.
+Print Assumptions C14_index_interior_cell.
+
+(* the cell pointer array: K two-byte big-endian offsets *)
+Theorem C14_cell_pointers : forall starts rest maxlen, Forall (fun s => 0 <= s < 65536 /\ s <= maxlen) starts ->
+  parse_cellpointers (Z.of_nat (length starts)) (enc_ptrs starts ++ rest) maxlen = Ok starts.
+Proof. exact parse_cellpointers_enc. Qed.
+Print Assumptions C14_cell_pointers.
+
+(* a table leaf page laid out as the format says - type byte 13, cell count at bytes 3..4, the
+   pointer array from byte 8, each cell at its offset - decodes to exactly those cells, in
+   pointer-array order *)
+Theorem C14_table_leaf_page : forall hdr starts rest cells u,
+  len hdr = 8 -> index hdr 0 = Ok 13 -> slice hdr 3 5 = Ok (be_enc 2 (Z.of_nat (length starts))) ->
+  Z.of_nat (length starts) < 65536 ->
+  let b := hdr ++ enc_ptrs starts ++ rest in
+  Forall (fun s => 0 <= s < 65536 /\ s <= len b) starts ->
+  Forall2 (fun s c => 0 <= s <= len b /\ parse_table_leaf (drop s b) u = Ok c) starts cells ->
+  parse_page b false u = Ok (TLeaf cells).
+Proof. exact table_leaf_page. Qed.
+Print Assumptions C14_table_leaf_page.
 
 (* non-vacuity: concrete objects meeting the hypotheses *)
 Example C14_record_example :
